@@ -19,9 +19,9 @@ import (
 
 // Item is one node of a chain Parallel / ChainBranch.
 type Item struct {
-	Key     string `json:"key"`            // output key (parallel) or branch key
-	Kind    string `json:"kind"`           // lambda | pass | subok | subbad
-	NodeKey string `json:"nk,omitempty"`   // WithNodeKey, "" = none
+	Key     string `json:"key"`          // output key (parallel) or branch key
+	Kind    string `json:"kind"`         // lambda | pass | subok | subbad
+	NodeKey string `json:"nk,omitempty"` // WithNodeKey, "" = none
 }
 
 // Call is one public API call. Op is interpreted per front-end:
@@ -233,8 +233,8 @@ func invWS(r compose.Runnable[WS, WS]) invoker {
 // frontEnd applies one call; a successful Compile also yields an invoker.
 type frontEnd interface {
 	apply(c *Call) (error, invoker)
-	snapshot() []string          // canonical state (snap.go)
-	pendingInputs() map[string]int // Workflow: deferred inputs per node (nil otherwise)
+	snapshot() []string             // canonical state (snap.go)
+	pendingInputs() map[string]int  // Workflow: deferred inputs per node (nil otherwise)
 	pendingStatics() map[string]int // Workflow: static values not yet applied, per node (nil otherwise)
 }
 
@@ -414,12 +414,7 @@ func (f *wfFE) apply(c *Call) (error, invoker) {
 	case "addinput":
 		var h *compose.WorkflowNode
 		if c.To == compose.END {
-			if x, ok := f.handles[c.To]; ok {
-				h = x
-			} else {
-				h = f.w.End()
-				f.handles[c.To] = h
-			}
+			h = f.w.End() // asked for every time, the way callers write it: End() must hand out the same node
 		} else {
 			h = f.handles[c.To]
 		}
@@ -438,12 +433,7 @@ func (f *wfFE) apply(c *Call) (error, invoker) {
 	case "setstatic":
 		var h *compose.WorkflowNode
 		if c.To == compose.END {
-			if x, ok := f.handles[c.To]; ok {
-				h = x
-			} else {
-				h = f.w.End()
-				f.handles[c.To] = h
-			}
+			h = f.w.End() // asked for every time, the way callers write it: End() must hand out the same node
 		} else {
 			h = f.handles[c.To]
 		}
@@ -537,8 +527,8 @@ var compileTimeClass = map[string]bool{
 // ---------------------------------------------------------------- one execution
 
 type compiled struct {
-	at   int      // index of the Compile call
-	opts string   // its options
+	at   int    // index of the Compile call
+	opts string // its options
 	inv  invoker
 	snap []string // outputs on the snapshot inputs ("" = unstable, not compared)
 }
